@@ -101,7 +101,7 @@ func c15Contexts(rng *gen.Rand, g *gen.TreeGen) func(h *gen.Expr) *gen.Expr {
 func c15(r *mon.Run) {
 	r.Rule = "law 1: for seeded random trees A, B of all fragments and random typed documents d, Search('A | B', d) is compared with Search(B, Search(A, d)) where the intermediate value is handed on as the Go value returned (no JSON round trip), in value and in error-ness; " +
 		"law 2: for a random tree E with a JSON value v = Search(E, d) and a random context C[.] of 1-3 layers whose hole is evaluated against the root (operands of || && ! comparators, multi-select members, function arguments, heads of chains and pipes), Search(C[E], d) is compared with Search(C[literal(v)], d). " +
-		"law 2 additionally with the hole in never-evaluated positions (behind short-circuiting || / &&, right of projections over null / empty lists, filters over empty lists) for every function x every JSON type; the composed side of each law goes through one-shot Search and through Compile+Search alternately. law 1 additionally on every pair of 23 left sides (projections / by-expression calls whose right-hand side fails on only some elements, null-producing paths, large integer literals) x 23 right sides (indices, slices, length, dotted paths ending in a function call, comparisons with large literals). When the reference model allows more than one member order, both sides are only required to be allowed results. Non-trivial = distinct (A, B, d) where Search(A, d) is neither null nor an error (law 1), distinct (C, E, d) with a non-null v (law 2)."
+		"law 2 additionally with every function template (and sorts of 24 elements with tied keys) as the hole directly under 21 selections (indices from both ends, slices, projections, length, comparisons of first and last); law 2 additionally with the hole in never-evaluated positions (behind short-circuiting || / &&, right of projections over null / empty lists, filters over empty lists) for every function x every JSON type; the composed side of each law goes through one-shot Search and through Compile+Search alternately. law 1 additionally on every pair of 23 left sides (projections / by-expression calls whose right-hand side fails on only some elements, null-producing paths, large integer literals) x 23 right sides (indices, slices, length, dotted paths ending in a function call, comparisons with large literals). When the reference model allows more than one member order, both sides are only required to be allowed results. Non-trivial = distinct (A, B, d) where Search(A, d) is neither null nor an error (law 1), distinct (C, E, d) with a non-null v (law 2)."
 	r.Floor = 2000
 	r.Assumptions = []string{"metamorphic: both sides of each law are computed by the implementation under test; the reference model is used only to recognise order nondeterminism",
 		"literals are spelled with shortest round-trip floats (gen.FormatNumber)"}
@@ -352,5 +352,56 @@ func c15(r *mon.Run) {
 				t.Count("dead positions: both sides error")
 			}
 		}}
-	r.Exec(law1, law2, shaped, dead)
+	// law 2 with the hole directly under a selection, for every function template fed from the document (arrays with
+	// tied keys, already sorted input): what follows a call must see the call's value, whatever short-cut the
+	// combination "this call + this selection" might invite
+	cbase := c06BaseDoc()
+	calls := c06Calls(false, cbase)
+	calls = append(calls, gen.Func("sort_by", gen.Field("big"), gen.ExpRef(gen.Field("n"))), gen.Func("sort_by", gen.Field("big"), gen.ExpRef(gen.Field("s"))), gen.Func("sort", gen.Field("bign")), gen.Func("sort", gen.Field("bigs")),
+		gen.Func("max_by", gen.Field("big"), gen.ExpRef(gen.Field("n"))), gen.Func("min_by", gen.Field("big"), gen.ExpRef(gen.Field("n"))), gen.Func("reverse", gen.Field("big")), gen.Func("map", gen.ExpRef(gen.Field("n")), gen.Field("big")),
+		gen.Func("sort_by", gen.Field("sorted"), gen.ExpRef(gen.Field("n"))), gen.Func("values", gen.Field("o")), gen.Func("keys", gen.Field("o")), gen.Func("to_array", gen.Field("big")), gen.Func("not_null", gen.Field("z"), gen.Field("big")))
+	sel := []func(h *gen.Expr) *gen.Expr{
+		func(h *gen.Expr) *gen.Expr { return gen.Chain(h, gen.StIndex(0)) }, func(h *gen.Expr) *gen.Expr { return gen.Chain(h, gen.StIndex(-1)) },
+		func(h *gen.Expr) *gen.Expr { return gen.Chain(h, gen.StIndex(1)) }, func(h *gen.Expr) *gen.Expr { return gen.Chain(h, gen.StIndex(-2)) },
+		func(h *gen.Expr) *gen.Expr { return gen.Chain(h, gen.StIndex(0), gen.StField("i")) }, func(h *gen.Expr) *gen.Expr { return gen.Chain(h, gen.StIndex(-1), gen.StField("i")) },
+		func(h *gen.Expr) *gen.Expr { return gen.Chain(h, gen.StListStar(), gen.StField("i")) }, func(h *gen.Expr) *gen.Expr { return gen.Chain(h, gen.StFlatten()) },
+		func(h *gen.Expr) *gen.Expr { return gen.Chain(h, gen.StFilter(gen.Current())) }, func(h *gen.Expr) *gen.Expr { return gen.Chain(h, gen.StStar()) },
+		func(h *gen.Expr) *gen.Expr { return gen.Pipe(h, gen.Chain(nil, gen.StIndex(-1))) }, func(h *gen.Expr) *gen.Expr { return gen.Func("length", h) },
+		func(h *gen.Expr) *gen.Expr { return gen.Chain(h, gen.StSliceS("", "2", "")) }, func(h *gen.Expr) *gen.Expr { return gen.Chain(h, gen.StSliceS("-2", "", "")) },
+		func(h *gen.Expr) *gen.Expr { return gen.Chain(h, gen.StSliceS("", "", "-1"), gen.StIndex(0)) }, func(h *gen.Expr) *gen.Expr { return gen.Chain(h, gen.StField("n")) },
+		func(h *gen.Expr) *gen.Expr {
+			return gen.MultiList(gen.Chain(h, gen.StIndex(0)), gen.Chain(h, gen.StIndex(-1)))
+		}, func(h *gen.Expr) *gen.Expr { return gen.Func("max", h) },
+		func(h *gen.Expr) *gen.Expr { return gen.Func("reverse", h) }, func(h *gen.Expr) *gen.Expr { return gen.Func("join", gen.Raw(","), h) },
+		func(h *gen.Expr) *gen.Expr {
+			return gen.Cmp("==", gen.Chain(h, gen.StIndex(-1)), gen.Chain(h, gen.StSliceS("", "", "-1"), gen.StIndex(0)))
+		},
+	}
+	behind := mon.Workload{Name: "substitution-under-a-selection", N: len(calls) * len(sel) * 2,
+		Do: func(i int, t *mon.Tally) {
+			E := calls[i/2/len(sel)]
+			C := sel[i/2%len(sel)]
+			t.Eval()
+			oe := apiSearch(gen.Spell(E), mon.DeepCopy(cbase))
+			if oe.Panicked || oe.Err != nil || mon.JSONClosed(oe.V) != "" {
+				t.Count("law 2 (selection): the call has no JSON value to substitute, skipped")
+				return
+			}
+			T1, T2 := C(E), C(gen.LitVal(oe.V))
+			o1 := via(i, gen.Spell(T1), mon.DeepCopy(cbase))
+			o2 := via(i, gen.Spell(T2), mon.DeepCopy(cbase))
+			if o1.Panicked || o2.Panicked || !sameOutcome(o1, o2) {
+				res := ref.RefSet(T1, cbase, gen.Quirks{})
+				if !o1.Panicked && !o2.Panicked && (len(res.Outcomes) > 1 || res.Skipped != "" || res.DontCare) && agree(res, o1, o2) {
+					t.Count("law 2 (selection): sides differ only in an allowed member order")
+					return
+				}
+				r.Violate(&mon.Violation{Workload: "substitution-under-a-selection", Index: i, API: []string{"Search", "Compile+Search"}[i%2], Expr: gen.Spell(T1), Doc: cbase,
+					Expected: "same as with the call " + gen.Spell(E) + " replaced by the literal of its value: " + clipStr(o2.String(), 600), Observed: clipStr(o1.String(), 600), Class: "substitution law (selection directly on a call)"})
+				return
+			}
+			t.Nontrivial("sel:" + gen.Spell(T1))
+			t.Count("law 2 (selection): sides agree")
+		}}
+	r.Exec(law1, law2, shaped, dead, behind)
 }
